@@ -96,6 +96,23 @@ def check_case(ctx, case, max_runs):
                     ctx.fail("IRV majority criterion violated", c2, {"majority": maj, "elected": sorted(el)})
 
 
+def mixed_pile_case(rnd):
+    """Random transfer from a pile that mixes coalition and outside continuations: S = {a, b} holds exactly two quotas, all
+    on ballots led by a; a's surplus must pass enough of them on to b.  Which ballots move is random, so the case is run
+    under many seeds (a draw *with* replacement can over-draw the small outside part of the pile)."""
+    a, b, c, d = rnd.sample(gen.NAMES, 4)
+    T = rnd.randint(6, 14)
+    rest = rnd.randint(T - 3, T - 1)
+    y = rnd.randint(1, max(1, rest - 1))
+    z = rest - y
+    B = lambda r, w: canon.spec_ballot(r=[[x] for x in r], w=w)  # noqa
+    bl = [B([a, b, c, d], 2 * T), B([a, c, d, b], y)] + ([B([c, d, b, a], z)] if z > 0 else [])
+    rnd.shuffle(bl)
+    spec = canon.spec_profile(rnd.sample([a, b, c, d], 4), bl)
+    cfg = {"rule": "STV", "m": 2, "quota": "droop", "sim": rnd.random() < 0.5, "transfer": "random", "tiebreak": "random"}
+    return {"cfg": cfg, "profile": spec, "seed": rnd.randrange(10 ** 6)}
+
+
 def run(ctx):
     maxn = 6 if ctx.quick else 7
     max_runs = 3 if ctx.quick else 10
@@ -113,6 +130,9 @@ def run(ctx):
                    "transfer": "random" if (allint and ctx.rnd.random() < 0.5) else "fractional",
                    "tiebreak": ctx.rnd.choice(["random", "random", "borda", "first_place"])}
         ctx.guard("check", check_case, ctx, {"cfg": cfg, "profile": spec, "seed": ctx.rnd.randrange(10 ** 6)}, max_runs)
+        if i % 60 == 5:
+            ctx.count("mixed_pile_cases")
+            ctx.guard("check", check_case, ctx, mixed_pile_case(ctx.rnd), 40 if ctx.quick else 200)
         if i % 3 == 0:
             sib = cases.sibling_weights_permuted(ctx.rnd, spec)
             if sib is not None:
